@@ -49,6 +49,8 @@ def aligned_family(ex, polys, base="al", shape=None, same_shape=True):
     for q in out:
         q.aligned_with = out
     ctx.assume(out[0].wf(ctx))
+    from contracts.construct import keyok
+    ctx.assume(ctx.forall_range(0, N, lambda t: keyok(rf(t), D)))
     # each result denotes its input (broadcast to the common shape where shape is aligned)
     for p, q in zip(polys, out):
         if hasattr(p, "val"):
